@@ -48,6 +48,7 @@ RpChain == {<<"p1", "p2">>, <<"p2", "p1">>}
 A2Chain == {<<"r1", "r2">>, <<"r2", "r5">>, <<"r1", "r3">>}
 A1Chain == {<<"r2", "r3">>, <<"r4", "r2">>, <<"r1", "r4">>, <<"r2", "r6">>}
 AllModes == {"impl", "unsup", "err"}
+ImplUnsup == {"impl", "unsup"}
 OnlyUnsup == {"unsup"}
 OnlyImpl == {"impl"}
 
